@@ -51,7 +51,7 @@ func TestVerif_C14(t *testing.T) {
 	defer res.finish(t)
 	res.assume("the send-end-marker flag is generated only on updates of FARs that forwarded into a tunnel before the update (the property speaks of 'the tunnel the rule used before')")
 	res.assume("completeness by a sentinel: a flagged update on a dedicated FAR whose marker closes the window (FIFO channel and socket / stream)")
-	nh := vEnv.pick(400, 8000)
+	nh := vEnv.pick(400, 40000)
 	for hi := 0; hi < nh; hi++ {
 		if !vEnv.mine(hi) {
 			continue
